@@ -70,6 +70,7 @@ const LAYERS: &[&str] = &[
     "[extend.units]\nl = { names = [\"kilogram\"] }",
     "[si]\nprecedence = \"override\"\n[si.prefixes]\nkilo = [\"kilo\"]\nhecto = [\"hecto\"]\ndeca = [\"deca\"]\ndeci = [\"deci\"]\ncenti = [\"centi\"]\nmilli = [\"mili\"]",
     "[si.prefixes]\nkilo = []\nhecto = []\ndeca = []\ndeci = []\ncenti = []\nmilli = [\"mili\"]",
+    "[si]\nprecedence = \"override\"\n[si.prefixes]\nkilo = [\"quilo\"]\nhecto = []\ndeca = []\ndeci = [\"deci\"]\ncenti = [\"centi\"]\nmilli = [\"mili\"]",
     "[si]\nprecedence = \"after\"\n[si.symbol_prefixes]\nkilo = [\"K\"]\nhecto = []\ndeca = []\ndeci = []\ncenti = []\nmilli = []",
     "[si]\nprecedence = \"override\"\n[si.symbol_prefixes]\nkilo = [\"k\"]\nhecto = [\"h\"]\ndeca = [\"D\"]\ndeci = [\"d\"]\ncenti = [\"c\"]\nmilli = [\"m\"]",
     "[[quantity]]\nquantity = \"mass\"\nunits = [ { names = [\"pound\"], symbols = [\"lb\"], ratio = 453.6 } ]",
@@ -80,6 +81,8 @@ const LAYERS: &[&str] = &[
     "[[quantity]]\nquantity = \"mass\"\nbest = [\"g\", \"l\"]",
     "[[quantity]]\nquantity = \"mass\"\nbest = []",
     "[[quantity]]\nquantity = \"mass\"\nbest = [\"zz\"]",
+    "[[quantity]]\nquantity = \"mass\"\nbest = { metric = [], imperial = [\"oz\"] }",
+    "[[quantity]]\nquantity = \"mass\"\nbest = { metric = [\"g\"], imperial = [] }",
     "[[quantity]]\nquantity = \"mass\"\nbest = { metric = [\"kg\", \"mg\", \"g\"], imperial = [\"oz\"] }",
     "[[quantity]]\nquantity = \"time\"\nbest = { metric = [\"min\"], imperial = [\"s\", \"g\"] }",
     "[[quantity]]\nquantity = \"volume\"\nunits = [ { names = [\"cup\"], symbols = [\"c\"], ratio = 0.25, expand_si = true } ]",
@@ -89,7 +92,7 @@ const LAYERS: &[&str] = &[
     "[fractions.unit]\nzz = true",
     "[fractions]\nall = { enabled = true, accuracy = 2.0, max_denominator = 200 }",
     "[fractions]\nmetric = false\nimperial = { enabled = true, max_denominator = 8 }",
-    "[fractions.quantity]\nmass = { enabled = true, accuracy = 0.2, max_denominator = 2 }\n[fractions.unit]\noz = { max_whole = 3 }",
+    "[fractions.quantity]\nmass = { enabled = true, accuracy = 0.2, max_denominator = 2 }\n[fractions.unit]\noz = { max_whole = 3, accuracy = 0.01 }",
     "default_system = \"imperial\"",
 ];
 
